@@ -87,6 +87,12 @@ type provAnalysis struct {
 	maxDepth int
 	memo     map[provKey]provSet
 	busy     map[provKey]bool
+	sites    map[*ssa.Function][]ssa.CallInstruction
+	dynSites []ssa.CallInstruction
+	// scope restricts the field-store closure (nil = whole module)
+	scope     []*ssa.Function
+	fstores   map[string][]ssa.Value
+	busyField map[string]bool
 }
 
 type provKey struct {
@@ -102,8 +108,52 @@ type provCtx struct {
 	depth  int
 }
 
+// callSites lists the module call instructions that can invoke fn: static
+// calls, and — for functions used as values — dynamic calls of a func value
+// with an identical signature.
+func (pa *provAnalysis) callSites(fn *ssa.Function) []ssa.CallInstruction {
+	if pa.sites == nil {
+		pa.sites = map[*ssa.Function][]ssa.CallInstruction{}
+		var dyn []ssa.CallInstruction
+		for _, f := range pa.c.ModFuncs {
+			forEachInstr(f, func(in ssa.Instruction) {
+				call, ok := in.(ssa.CallInstruction)
+				if !ok {
+					return
+				}
+				cc := call.Common()
+				if sc := cc.StaticCallee(); sc != nil {
+					pa.sites[sc] = append(pa.sites[sc], call)
+					return
+				}
+				if _, isB := cc.Value.(*ssa.Builtin); !isB && !cc.IsInvoke() {
+					dyn = append(dyn, call)
+				}
+			})
+		}
+		pa.dynSites = dyn
+	}
+	out := pa.sites[fn]
+	if fn.Signature.Recv() == nil {
+		for _, d := range pa.dynSites {
+			if types.Identical(d.Common().Value.Type().Underlying(), fn.Signature) {
+				out = append(out, d)
+			}
+		}
+	}
+	return out
+}
+
+// newProvScoped: provenance whose field-store closure only looks at the
+// given functions (one packager's call graph).
+func newProvScoped(c *Ctx, reach map[*ssa.Function]bool) *provAnalysis {
+	pa := newProv(c)
+	pa.scope = sortedFuncs(c, reach)
+	return pa
+}
+
 func newProv(c *Ctx) *provAnalysis {
-	return &provAnalysis{c: c, maxDepth: 4, memo: map[provKey]provSet{}, busy: map[provKey]bool{}}
+	return &provAnalysis{c: c, maxDepth: 4, memo: map[provKey]provSet{}, busy: map[provKey]bool{}, busyField: map[string]bool{}}
 }
 
 func rootTypeName(t types.Type) string {
@@ -171,6 +221,9 @@ func (pa *provAnalysis) addrProv(addr ssa.Value, ctx *provCtx) provSet {
 			out.add(pa.storedInto(a, r, path, ctx))
 			if rn := rootTypeName(r.Type()); rn == "Info" || rn == "Content" || rn == "FileInfo" {
 				out[rn+"."+path] = true
+				if rn != "Info" {
+					pa.fieldClosure(r.Type(), path, out)
+				}
 			}
 			return out
 		default:
@@ -186,6 +239,11 @@ func (pa *provAnalysis) addrProv(addr ssa.Value, ctx *provCtx) provSet {
 			// value: include what flows into the same field of its allocation
 			if al := allocOf(root); al != nil {
 				out.add(pa.storedInto(a, al, path, ctx))
+			}
+			// field-based closure for everything but the configuration itself:
+			// whatever the scope stores into this field of this type
+			if rn != "Info" {
+				pa.fieldClosure(root.Type(), path, out)
 			}
 			return out
 		}
@@ -203,11 +261,7 @@ func (pa *provAnalysis) addrProv(addr ssa.Value, ctx *provCtx) provSet {
 		if al := allocOf(a.X); al != nil {
 			for _, ref := range *al.Referrers() {
 				if ia, ok := ref.(*ssa.IndexAddr); ok {
-					for _, r2 := range *ia.Referrers() {
-						if st, ok := r2.(*ssa.Store); ok && st.Addr == ssa.Value(ia) {
-							out.add(pa.of(st.Val, ctx))
-						}
-					}
+					pa.storesBelow(ia, ctx, out, 0)
 				}
 			}
 			return out
@@ -220,6 +274,81 @@ func (pa *provAnalysis) addrProv(addr ssa.Value, ctx *provCtx) provSet {
 		return pa.of(a, ctx)
 	}
 	return pa.of(addr, ctx)
+}
+
+// fieldClosure (scoped analyses only): whatever the functions in scope store
+// into field `path` of struct type t, whichever object it is.
+func (pa *provAnalysis) fieldClosure(t types.Type, path string, out provSet) {
+	if pa.scope == nil {
+		return
+	}
+	k := types.TypeString(derefType(t), nil) + "." + path
+	if pa.busyField[k] {
+		return
+	}
+	pa.busyField[k] = true
+	for _, v := range pa.fieldStores()[k] {
+		out.add(pa.of(v, nil))
+	}
+	delete(pa.busyField, k)
+}
+
+// storesBelow unions everything stored at addr or at any field/element
+// address derived from it.
+func (pa *provAnalysis) storesBelow(addr ssa.Value, ctx *provCtx, out provSet, depth int) {
+	if depth > 5 || addr.Referrers() == nil {
+		return
+	}
+	for _, ref := range *addr.Referrers() {
+		switch r := ref.(type) {
+		case *ssa.Store:
+			if r.Addr == addr {
+				out.add(pa.of(r.Val, ctx))
+			}
+		case *ssa.FieldAddr:
+			pa.storesBelow(r, ctx, out, depth+1)
+		case *ssa.IndexAddr:
+			pa.storesBelow(r, ctx, out, depth+1)
+		}
+	}
+}
+
+// fieldStores indexes, for the functions in scope, the values stored into
+// each struct field ("<type>.<path>").
+func (pa *provAnalysis) fieldStores() map[string][]ssa.Value {
+	if pa.fstores != nil {
+		return pa.fstores
+	}
+	pa.fstores = map[string][]ssa.Value{}
+	fns := pa.scope
+	if fns == nil {
+		fns = pa.c.ModFuncs
+	}
+	for _, fn := range fns {
+		forEachInstr(fn, func(in ssa.Instruction) {
+			st, ok := in.(*ssa.Store)
+			if !ok {
+				return
+			}
+			fa, ok := st.Addr.(*ssa.FieldAddr)
+			if !ok {
+				return
+			}
+			path, root := addrPath(fa)
+			if root == nil {
+				return
+			}
+			// index under every suffix rooted at a struct boundary
+			k := types.TypeString(derefType(root.Type()), nil) + "." + path
+			pa.fstores[k] = append(pa.fstores[k], st.Val)
+			// also under the innermost struct (elements of arrays of structs)
+			k2 := types.TypeString(derefType(fa.X.Type()), nil) + "." + fieldName(fa.X.Type(), fa.Field)
+			if k2 != k {
+				pa.fstores[k2] = append(pa.fstores[k2], st.Val)
+			}
+		})
+	}
+	return pa.fstores
 }
 
 func globalName(g *ssa.Global) string {
@@ -300,7 +429,25 @@ func (pa *provAnalysis) of1(v ssa.Value, ctx *provCtx) provSet {
 		if rn := rootTypeName(x.Type()); rn == "Info" || rn == "Content" || rn == "FileInfo" {
 			return provSet{}
 		}
-		return provSet{"param:" + pa.c.funcKey(x.Parent()) + "." + x.Name(): true}
+		// unbound parameter: join over the module's call sites of the function
+		// (context-insensitive); entry points keep a param atom
+		out := provSet{}
+		sites := pa.callSites(x.Parent())
+		idx := -1
+		for i, p := range x.Parent().Params {
+			if p == x {
+				idx = i
+			}
+		}
+		for _, cs := range sites {
+			if idx >= 0 && idx < len(cs.Common().Args) {
+				out.add(pa.of(cs.Common().Args[idx], nil))
+			}
+		}
+		if len(sites) == 0 {
+			out["param:"+pa.c.funcKey(x.Parent())+"."+x.Name()] = true
+		}
+		return out
 	case *ssa.FreeVar:
 		// bound value in the creating function
 		fn := x.Parent()
@@ -362,7 +509,12 @@ func (pa *provAnalysis) of1(v ssa.Value, ctx *provCtx) provSet {
 		out := pa.of(x.X, ctx)
 		out2 := provSet{}
 		out2.add(out)
-		out2.add(pa.of(x.Index, ctx))
+		// the index selects, it does not flow into the value: keep it apart
+		for a := range pa.of(x.Index, ctx) {
+			if !strings.HasPrefix(a, "idx:") {
+				out2["idx:"+a] = true
+			}
+		}
 		// values put into a local map
 		if mm, ok := x.X.(*ssa.MakeMap); ok {
 			for _, ref := range *mm.Referrers() {
@@ -386,25 +538,7 @@ func (pa *provAnalysis) of1(v ssa.Value, ctx *provCtx) provSet {
 	case *ssa.Alloc:
 		// pointer to a local: provenance of everything stored below it
 		out := provSet{}
-		var visit func(a ssa.Value, d int)
-		visit = func(a ssa.Value, d int) {
-			if d > 4 || a.Referrers() == nil {
-				return
-			}
-			for _, ref := range *a.Referrers() {
-				switch r := ref.(type) {
-				case *ssa.Store:
-					if r.Addr == a {
-						out.add(pa.of(r.Val, ctx))
-					}
-				case *ssa.FieldAddr:
-					visit(r, d+1)
-				case *ssa.IndexAddr:
-					visit(r, d+1)
-				}
-			}
-		}
-		visit(x, 0)
+		pa.storesBelow(x, ctx, out, 0)
 		if rn := rootTypeName(x.Type()); rn != "" {
 			out["alloc:"+rn] = true
 		}
@@ -416,7 +550,15 @@ func (pa *provAnalysis) of1(v ssa.Value, ctx *provCtx) provSet {
 	case *ssa.MakeClosure:
 		out := provSet{"func:" + pa.c.funcKey(x.Fn.(*ssa.Function)): true}
 		return out
-	case *ssa.MakeMap, *ssa.MakeSlice, *ssa.MakeChan:
+	case *ssa.MakeMap:
+		out := provSet{}
+		for _, ref := range *x.Referrers() {
+			if mu, ok := ref.(*ssa.MapUpdate); ok && mu.Map == ssa.Value(x) {
+				out.add(pa.of(mu.Value, ctx))
+			}
+		}
+		return out
+	case *ssa.MakeSlice, *ssa.MakeChan:
 		return provSet{}
 	}
 	return provSet{fmt.Sprintf("opaque:%T", v): true}
